@@ -84,3 +84,8 @@ claim('C12',
       'rank-table extraction vs spec/term_order.json, shape rules on comparison recipes (big-integer digit order, map keys-before-values, tuple size-first, list elements-first), numeric exactness shared with C11',
       'Decided from MIR: the variant->rank map of both comparators is order-isomorphic to Erlang\'s number < atom < reference < fun < port < pid < tuple < map < list < bit-string; big-integer magnitudes are compared from the most significant digit; maps compare size, then all keys, then all values; tuples compare size before elements; lists compare elements before length; atoms compare by name. Rounding of integers against floats is reported under C11 clause 4 (known findings). Agreement on values (bit-wise bit-string order, exact float/integer comparison) is not decided.',
       NOTE, 'DESIGN.md §4 C12')
+
+claim('C14',
+      'wire-signature comparison of the header writer and reader with the format, parity shape rule on the LongAtoms mask, type fact on the cache key, provenance of reference resolution and of the cache argument, CAST',
+      'Decided from MIR: every path of the header encoder starts 131, 68, count and both sides use n/2+1 flag bytes and the same entry layout; the LongAtoms mask on both sides is 0x01/0x10 selected by the parity of the reference count; atom count and atom lengths written are guarded; every decode_with_atom_cache call is fed the connection\'s own cache. Reported as known findings: the persistent cache is keyed by u8 (segment ignored), ATOM_CACHE_REF is resolved by internal index instead of header position, and the fragment-header consumer uses the reference count as a byte length. Not decided: sequences of headers from a sender model.',
+      NOTE, 'DESIGN.md §4 C14')
